@@ -74,6 +74,18 @@ CHECKS = {
    technique="controlled-scheduler exhaustive enumeration of all thread interleavings at lock operations of the real Tracer (real OS threads, real parking_lot lock behind an observable wrapper); linearizability oracle against the sequential State",
    text="Tracer thread (R rounds over the simulated network, incl. the fatal-error path) x snapshot reader threads x a clear() thread on one real Tracer: a scheduling point at every lock acquisition attempt and thread start/end, ALL schedules enumerated with no preemption bound (quick: 4 configurations, ~10^4 schedules; thorough: 7 configurations up to R=4, 3 snapshots, 2 clears, two readers). Every observed snapshot must be explained by a total order, consistent with real-time order, of whole apply(round)/clear/set_error operations replayed on a fresh real State.",
    note="only the RwLock operations in tracer.rs are scheduling points (the only shared mutable state; safe Rust elsewhere); " + ASSUME_SIM, ref="3/C20"),
+ "C16": dict(cat="exploration", engine="E5 (+E2)",
+   technique="exhaustive pairwise (t=2) enumeration of option placements through the real CLI parser, TOML deserialiser and build_config with a differential oracle; full builder parameter grid executed over the simulated network",
+   text="(a) 116 layered options x every pair x every pair of placements {absent, file, CLI, both} x contexts/backgrounds: the effective TrippyConfig must equal the configuration obtained by giving each option's effective value (CLI, else file, else default) on the command line only (or both are rejected); every option first shown to have an effect. (b) Builder grid over protocol x strategy x port direction x family x first/max ttl x max-inflight x initial sequence x packet size x privilege (x extension mode x timing profile in thorough): every accepted configuration is run with and without responses; a panic is a violation.",
+   note="differential oracle: a field that ignores both sources identically is only caught by the has-an-effect pre-check; start_tracer's CLI->builder mapping is not executed (it opens real sockets); " + ASSUME_SIM, ref="3/C16"),
+ "C17": dict(cat="model_checking", engine="E3 (TUI)",
+   technique="explicit-state BFS over histories of UI commands interleaved with trace updates on the real TuiApp + render (TestBackend), de-duplicated on a canonical key; panics and selection invariants as oracle",
+   text="Events = every binding of run_app's dispatch chain under the same mode gating (table self-checked against the source) + 7 trace updates per target; each step = one turn of run_app (snapshot/clamp/order unless frozen, draw). Full alphabet to depth 3 (4 thorough) for the main configuration, 2-3 for five others (two targets, first-ttl 3/one flow, all columns, one column, 1x1 terminal); projected alphabets (navigation/flows/freeze, settings dialog, display modes) to depth 5-6 (9 thorough); reached states re-drawn at 63 (quick) / ~900 (thorough) terminal sizes from 1x1 to 300x100.",
+   note="command table replicates run_app (self-check turns drift into a machinery failure); counters/latencies not in the canonical key; DNS cache pre-seeded, clock pinned, GeoIP fixture generated", ref="3/C17"),
+ "C18": dict(cat="model_checking", engine="E3 (TUI)",
+   technique="explicit-state BFS over UI/trace histories on the real TuiApp + render; every drawn frame searched for the secrets of hidden hops",
+   text="Every hop address carries recognisable address/hostname/AS/GeoIP text; after every draw every row of the TestBackend buffer is searched for the 6-character prefixes of all secrets of all responding hops with TTL <= n (all flows) and of the source address. 23-event alphabet to depth 4 (6 thorough); 6 AS modes x 4 GeoIP modes x 3 address modes with rotating initial n from a populated multi-flow trace; positive half (hops above n visible at 140 columns); keyboard half (each expand/contract step compared with off->0->..->hop count); reached states re-drawn at other sizes with the oracle on each frame.",
+   note="the user-supplied target in the header/tabs is exempt (DESIGN.md 5.7); same trusted base as C17", ref="3/C18"),
 }
 
 NOT_YET = {
@@ -123,6 +135,7 @@ def main():
             {"name": "E1", "path": "harness/vcore/src/mc.rs", "serves_properties": ["C01","C03","C06","C07","C08","C09","C19"], "kind_free_text": "stateless deviation-bounded explorer (prefix-replay DFS over environment choices)"},
             {"name": "E3", "path": "harness/vcore/src/stateexp.rs", "serves_properties": ["C05","C10","C15"], "kind_free_text": "explicit-state depth-bounded search over round histories on the real State, de-duplicated on canonical keys (all getter results)"},
             {"name": "E4", "path": "harness/vcore/src/sched.rs", "serves_properties": ["C20"], "kind_free_text": "controlled scheduler for real OS threads: baton passing at every lock operation of trippy-core's observable RwLock wrapper, schedules enumerated by prefix-replay DFS"},
+            {"name": "E3-TUI", "path": "harness/vtui/src/explore.rs", "serves_properties": ["C17","C18"], "kind_free_text": "level-synchronous BFS over event histories replayed on the real TuiApp/render (ratatui TestBackend) with canonical-key de-duplication"},
             {"name": "E2", "path": "harness/vcore/src/simnet.rs", "serves_properties": ["C01","C02","C03","C04","C09","C11","C13","C14","C16","C19","C20"], "kind_free_text": "simulated network implementing the real Socket trait + independent RFC wire codec + virtual clock + ground-truth log"},
         ],
         "checks": checks,
